@@ -65,6 +65,61 @@ Expr2(d, i, parent) ==       \* parent: the operator of the parent node, "" at t
      \o (IF Binary(nd) THEN sep \o Expr2(d, nd[3], op) \o close ELSE "")
 Expr(d, i) == Expr2(d, i, "")
 
+(***************************************************************************)
+(* Text of types and values (src/types/final_data.rs, src/value.rs,        *)
+(* src/types/arrow.rs).  Types and values in the nested-tuple form of      *)
+(* SimplicityCore.  The crate writes the product sign U+00D7, the arrow    *)
+(* U+2192 and the empty value U+03B5; the recorder transliterates them to  *)
+(* "*", "->" and "E" (after checking that the text contains none of those  *)
+(* already), which is what the operators below produce.                    *)
+(*   TyText(t)        Final's Display: 1, 2, 2^n for word types, A? for    *)
+(*                    1 + A, infix + and * with parentheses everywhere but *)
+(*                    at the root                                          *)
+(*   ArrowText(a, b)  FinalArrow's Display                                 *)
+(*   ValText(v, t)    Value's Display: E for every unit, 0b / 0x literals  *)
+(*                    for values of word types (the padded bits, four per  *)
+(*                    hex digit), L(..) R(..) (..,..) otherwise            *)
+(*   WordText(bits)   Word's Display: 0x for whole bytes, 0b otherwise     *)
+(***************************************************************************)
+TOne == <<"1">>
+TTwo == <<"+", TOne, TOne>>
+RECURSIVE WordN(_)
+WordN(t) == IF t = TTwo THEN 0
+            ELSE IF t[1] = "*" /\ t[2] = t[3] THEN (LET k == WordN(t[2]) IN IF k >= 0 THEN k + 1 ELSE -1)
+            ELSE -1
+RECURSIVE TyText2(_, _)
+TyText2(t, top) ==
+  LET n == IF t[1] = "1" THEN -1 ELSE WordN(t)
+      open == IF top THEN "" ELSE "("
+      close == IF top THEN "" ELSE ")"
+  IN CASE t[1] = "1" -> "1"
+       [] n = 0 -> "2"
+       [] n > 0 -> "2^" \o ToString(2 ^ n)
+       [] t[1] = "+" /\ t[2] = TOne -> TyText2(t[3], FALSE) \o "?"
+       [] t[1] = "+" -> open \o TyText2(t[2], FALSE) \o " + " \o TyText2(t[3], FALSE) \o close
+       [] OTHER -> open \o TyText2(t[2], FALSE) \o " * " \o TyText2(t[3], FALSE) \o close
+TyText(t) == TyText2(t, TRUE)
+ArrowText(a, b) == TyText(a) \o " -> " \o TyText(b)
+
+RECURSIVE WordBits(_, _)         \* the bits of a value of the word type 2^(2^n)
+WordBits(v, n) == IF n = 0 THEN (IF v[1] = "L" THEN <<0>> ELSE <<1>>) ELSE WordBits(v[2], n - 1) \o WordBits(v[3], n - 1)
+RECURSIVE BinFrom(_, _)
+BinFrom(b, p) == IF p >= Len(b) THEN "" ELSE (IF b[p + 1] = 1 THEN "1" ELSE "0") \o BinFrom(b, p + 1)
+RECURSIVE ValText(_, _)
+ValText(v, t) ==
+  LET n == IF t[1] = "1" THEN -1 ELSE WordN(t) IN
+  CASE t[1] = "1" -> "E"
+    [] n \in {0, 1} -> "0b" \o BinFrom(WordBits(v, n), 0)
+    [] n >= 2 -> "0x" \o Hex(WordBits(v, n))
+    [] v[1] = "L" -> "L(" \o ValText(v[2], t[2]) \o ")"
+    [] v[1] = "R" -> "R(" \o ValText(v[2], t[3]) \o ")"
+    [] OTHER -> "(" \o ValText(v[2], t[2]) \o "," \o ValText(v[3], t[3]) \o ")"
+WordText(bits) == IF Len(bits) % 8 = 0 THEN "0x" \o Hex(bits) ELSE "0b" \o BinFrom(bits, 0)
+
+ASSUME TyText(<<"+", TOne, <<"*", TTwo, TTwo>>>>) = "2^2?"
+ASSUME TyText(<<"*", <<"+", TTwo, TOne>>, <<"+", TOne, <<"+", TOne, TTwo>>>>>>) = "(2 + 1) * 2??"
+ASSUME ValText(<<"P", <<"L", <<"u">>>>, <<"R", <<"P", <<"R", <<"u">>>>, <<"L", <<"u">>>>>>>>>>, <<"*", TTwo, <<"+", TOne, <<"*", TTwo, TTwo>>>>>>) = "(0b0,R(0b10))" /\ ValText(<<"u">>, TOne) = "E"
+
 ASSUME Base64(<<0,1,0,0,1,1,0,1, 0,1,1,0,0,0,0,1, 0,1,1,0,1,1,1,0>>) = "TWFu"            \* "Man"
 ASSUME Base64(<<0,1,0,0,1,1,0,1, 0,1,1,0,0,0,0,1>>) = "TWE=" /\ Base64(<<0,1,0,0,1,1,0,1>>) = "TQ==" /\ Base64(<<>>) = ""
 ASSUME Hex(<<1,0,1,0,1,1,1,1, 0,0,0,0,0,0,0,1>>) = "af01"
